@@ -23,6 +23,18 @@ CHECKS = {
     note="Trusted: TLC; the verif-tagged block factory in package bgzf; watchdog (hang = over threshold AND goroutine parked in a sync primitive of the cache package). Concurrent histories are observed, not scheduled: overlap is whatever the Go scheduler produces.",
     technique="TLA+ P-spec/I-spec refinement checked by TLC + TLC trace validation of sequential histories + TLC linearizability search on concurrent histories",
     engine="BlockCache"),
+ "C08": dict(
+    category="model_checking", design_ref="DESIGN.md §5 C08, §4.1, App. A.2",
+    text="WriterP (property spec) carries the framing clauses in its Emit action (one whole valid gzip member per underlying write, BC subfield = member length - 1, <= 64 KiB, <= 65280 payload), the EOF-marker/HasEOF clause at every reply, gzip-compatibility and wc-independence of the bytes at scenario end; TLC checks the implementation-shaped WriterI (compressors, channels, emitter) against these clauses for all schedules of small scripts, and validates API traces of the real writer (emit events logged inside the underlying Write, with member facts from an independent RFC 1952 parser) against WriterP (verdict) and against WriterI's block plan (conformance).",
+    note="Trusted: TLC, the harness's framing parser + compress/flate + compress/gzip, SHA-1 digests for byte identity across wc. Levels: quick {-1,0,1,9}, thorough all.",
+    technique="TLA+ P-spec/I-spec, TLC exhaustive check of WriterI + TLC trace validation of real writer runs",
+    engine="BgzfWriter"),
+ "C12": dict(
+    category="model_checking", design_ref="DESIGN.md §5 C12, §4.1, App. A.2",
+    text="TLC checks WriterI (copy-or-queue loop, per-compressor goroutines, in-order emitter, Flush/Wait/Close, one injected underlying failure) for every completion order against Ordered, Durable (Flush then Wait), CloseComplete, sticky errors, no deadlock with a pending call and no goroutine left after Close; real writer runs (plain, fault-injected, and directed schedules that hold the emitter/compressors at verif hook points) are validated by TLC against WriterP: every underlying write is the next whole block of the data written so far, and the file observed at every reply is whole blocks decoding to a prefix.",
+    note="Trusted: as C08; watchdog for non-returning calls. Directed schedules only delay at existing hook points; a reordering between two adjacent statements with no hook between them is not forced. bam.Writer header durability is covered with C05/C13 when built.",
+    technique="TLA+ P-spec/I-spec, TLC exhaustive schedules on WriterI + TLC trace validation with fault injection and hook-directed schedules",
+    engine="BgzfWriter"),
 }
 NA_REASON = "check not built yet in this round (specification work in progress; see DESIGN.md §10 build order)"
 
@@ -53,8 +65,9 @@ def main():
         not_applicable=na)
     json.dump(m, open(os.path.join(V, "MANIFEST.json"), "w"), indent=1)
 
-HOOK_COMMITS = ["4b6c86a", "f712ea4"]
+HOOK_COMMITS = ["4b6c86a", "f712ea4", "5dd3b6c"]
 ENGINES = [
+ dict(name="BgzfWriter", path="spec/BgzfWriter", serves_properties=["C01", "C08", "C09", "C12"], kind_free_text="TLA+ WriterP/WriterI/WriterPlan + TLC MC + API trace validation"),
  dict(name="BlockCache", path="spec/BlockCache", serves_properties=["C14", "C03"], kind_free_text="TLA+ CacheP/CacheI/CacheLin + TLC MC + trace validation + linearizability search"),
  dict(name="Tf8", path="spec/Tf8", serves_properties=["C20"], kind_free_text="TLA+ bit-layout spec + TLC MC + trace validation + exported-table sweep"),
  dict(name="ChunkMerge", path="spec/ChunkMerge", serves_properties=["C17"], kind_free_text="TLA+ MergeP/MergeI + TLC MC + trace validation"),
